@@ -259,6 +259,29 @@ theorem greedyMatching_valid (g : G) (ignored el : List (Nat × Nat))
     validMatching g ignored (greedyMatching el) = true :=
   greedyMatching_valid_of_mem g ignored el (fun _ => hperm.mem_iff)
 
+/-- acceptance does not depend on the order in which the matching is listed (the code returns
+`list(matching)` of a Python set: some permutation of the insertion order of the model) -/
+theorem validMatching_perm (g : G) (ignored res res' : List (Nat × Nat)) (hp : res.Perm res') :
+    validMatching g ignored res = validMatching g ignored res' := by
+  have key : ∀ (r r' : List (Nat × Nat)), r.Perm r' →
+      validMatching g ignored r = true → validMatching g ignored r' = true := by
+    intro r r' hp h
+    rw [validMatching_iff] at h ⊢
+    obtain ⟨a1, ⟨a2, a3⟩, a4, a5⟩ := h
+    refine ⟨fun e he => a1 e (hp.mem_iff.2 he), ⟨hp.nodup a2, fun e he => a3 e (hp.mem_iff.2 he)⟩,
+      fun e he f hf => a4 e (hp.mem_iff.2 he) f (hp.mem_iff.2 hf), fun e he hi hne => ?_⟩
+    obtain ⟨f, hf, h⟩ := a5 e he hi hne
+    exact ⟨f, hp.mem_iff.1 hf, h⟩
+  rw [Bool.eq_iff_iff]
+  exact ⟨key res res' hp, key res' res hp.symm⟩
+
+/-- hence every listing of the matching built by the code is accepted -/
+theorem greedyMatching_valid_perm (g : G) (ignored el res : List (Nat × Nat))
+    (hperm : el.Perm (candidateEdges g ignored)) (hres : res.Perm (greedyMatching el)) :
+    validMatching g ignored res = true := by
+  rw [validMatching_perm g ignored res _ hres]
+  exact greedyMatching_valid g ignored el hperm
+
 /-! ### get_rooted_minimum_span: the checker `validSpan` -/
 
 /-- one step of the fold of `validSpan` -/
@@ -1486,6 +1509,10 @@ example : [(1, 2), (0, 1), (2, 3)].Perm (candidateEdges p4 []) ∧
 example : [(2, 3), (1, 2)].Perm (candidateEdges p4 [(1, 0)]) ∧
     validMatching p4 [(1, 0)] (greedyMatching [(2, 3), (1, 2)]) = true := by decide
 
+-- instance of `greedyMatching_valid_perm`: the matching listed in another order
+example : validMatching p4 [] [(2, 3), (0, 1)] = true :=
+  greedyMatching_valid_perm p4 [] [(0, 1), (1, 2), (2, 3)] _ (by decide) (by decide)
+
 -- accepted spans of the path rooted at 1, in both depth-first orders
 example : validSpan p4 1 [(1, 0), (1, 2), (2, 3)] = true := by decide
 example : validSpan p4 1 [(1, 2), (2, 3), (1, 0)] = true := by decide
@@ -1509,6 +1536,32 @@ example : validMinSpan c4 1 [(1, 2), (1, 0), (0, 3)] = true := by decide
 example : validSpan c4 1 [(1, 2), (2, 0), (0, 3)] = true ∧
     validMinSpan c4 1 [(1, 2), (2, 0), (0, 3)] = false := by decide
 example : spanDepths 1 [(1, 2), (1, 0), (0, 3)] = [(1, 0), (2, 1), (0, 1), (3, 2)] := by decide
+
+-- the algorithm model: the result depends on the iteration orders …
+example : c4.rootedSpan (fun _ l => l) (fun _ l => l) 1 = some [(1, 2), (1, 0), (0, 3)] := by
+  decide
+example : c4.rootedSpan (fun _ l => l.reverse) (fun _ l => l) 1 =
+    some [(1, 2), (2, 3), (1, 0)] := by decide
+example : c4.rootedSpan (fun _ l => l) (fun _ l => l.reverse) 1 =
+    some [(1, 0), (0, 3), (1, 2)] := by decide
+-- … the call raises for a root out of range and for an isolated root beyond the tree; for a
+-- disconnected graph it otherwise returns silently the span of the component of the root
+example : c4.rootedSpan (fun _ l => l) (fun _ l => l) 4 = none := by decide
+example : (⟨3, [(0, 1)]⟩ : G).rootedSpan (fun _ l => l) (fun _ l => l) 2 = none := by decide
+example : (⟨3, [(0, 1)]⟩ : G).rootedSpan (fun _ l => l) (fun _ l => l) 1 = some [(1, 0)] ∧
+    validSpan ⟨3, [(0, 1)]⟩ 1 [(1, 0)] = false := by decide
+-- the hypotheses of `rootedSpan_minValid` are satisfiable (here: reversed order in loop 1)
+example : ∃ res, c4.rootedSpan (fun _ l => l.reverse) (fun _ l => l) 1 = some res ∧
+    validMinSpan c4 1 res = true :=
+  rootedSpan_minValid c4 (by unfold G.WF; decide) _ _ (fun _ l => List.reverse_perm l)
+    (fun _ _ => List.Perm.refl _) 1 (by decide)
+    (fun v hv => (isFullyConnected_iff_all_pairs c4 (by unfold G.WF; decide) (by decide)).1
+      (by decide) 1 v (by decide) hv)
+-- instance of `validSpan_spanning` / `validMinSpan_dist`: vertex 3 has distance 2 from 1
+example : Reach c4 1 3 :=
+  (validSpan_spanning c4 1 [(1, 2), (1, 0), (0, 3)] (by decide)).2.2.1 3 (by decide)
+example : ∀ k, Walk c4 1 k 3 → 2 ≤ k :=
+  (validMinSpan_dist c4 1 [(1, 2), (1, 0), (0, 3)] (by decide) 3 (by decide)).2.2
 
 end examples
 
